@@ -307,14 +307,14 @@ theorem eval_union_exact {N : Type} [XNum N] (env : Env) (a b : Expr) (cx : Cx) 
   union_exact env a b cx l1 l2 ha hb
 
 /-- a three-element document `<a><b>v</b><c/></a>`: `child::*` from `a` selects `b` and `c`, not the text node -/
-example : (⟨⟨#[⟨0, [], [0x61], false, [], []⟩, ⟨1, [], [0x62], true, [0x76], []⟩, ⟨1, [], [0x63], false, [], []⟩]⟩, {}, 0⟩ : Env).candidates
+example : (⟨⟨#[⟨0, [], [0x61], false, [], []⟩, ⟨1, [], [0x62], true, [0x76], []⟩, ⟨1, [], [0x63], false, [], []⟩]⟩, {}, 0, {}⟩ : Env).candidates
     .child .any 2 = [4, 6] := by decide
 
 /-- audit witness: `<c><l><k>1</k></l><l><k>2</k></l><ll>x</ll></c>` — a container with two entries of a keyed list and a leaf-list
 instance; references `c`=2, `l`=4/8, `k`=6/10 (text 7/11), `ll`=12 (text 13); all semantics switches off -/
 private def auditEnv : Env :=
   ⟨⟨#[⟨0, [], [0x63], false, [], []⟩, ⟨1, [], [0x6c], false, [], []⟩, ⟨2, [], [0x6b], true, [0x31], []⟩,
-      ⟨1, [], [0x6c], false, [], []⟩, ⟨4, [], [0x6b], true, [0x32], []⟩, ⟨1, [], [0x6c, 0x6c], true, [0x78], []⟩]⟩, {}, 0⟩
+      ⟨1, [], [0x6c], false, [], []⟩, ⟨4, [], [0x6b], true, [0x32], []⟩, ⟨1, [], [0x6c, 0x6c], true, [0x78], []⟩]⟩, {}, 0, {}⟩
 /-- `//l[k = '2']` -/
 private def auditA : Expr :=
   .path .root [.mk .descendant (.name none [0x6c]) [.bin .eq (.path .ctx [.mk .child (.name none [0x6b]) []]) (.lit [0x32])]]
